@@ -3,8 +3,11 @@ import EosProofs.Lemmas.CalcBasic
 /-! The settled message-level state is the specification: under `derivedDyn u cfg` (everything the source
 knows is loaded, exactly the selected effects run, every running projectable effect is applied to the
 item's target) the message-level calculation `gatherD` / `valueOfD` / `evalD` of `EosModel/WorldMicro.lean`
-agrees with the from-scratch `World.gather` / `World.valueOf`.  Items are identified by id (`UniqueIds`);
-fleet boosts are outside the message-level layer (universe without buff effects). -/
+agrees with the from-scratch `World.gather` / `World.valueOf`.  Items are identified by id (`UniqueIds`).
+`derivedDyn` registers no fleet-boost payload (no recorded boost targets, no warfare-buff modifiers), so the
+comparison with the specification is for universes without buff effects (`hb`); the list-level facts
+(`specsOn_derived_perm`, …) need no such hypothesis.  Settled states *with* fleet boosts:
+`Lemmas/MicroBuff.lean`, `Lemmas/MicroBuffTable.lean`. -/
 namespace Eos.Micro
 open Eos.World Eos.Calc
 
@@ -323,6 +326,11 @@ theorem filter_proj (a : Item) (e : Effect) (t : Item) :
   simp only [Function.comp, selects]
   cases m.domain == 4 <;> cases m.tgtAttr == attr <;> simp
 
+/-- The settled state of the specification registers no warfare-buff payload. -/
+theorem projMods_derived (a : Item) (e : Effect) :
+    projMods u (derivedDyn u cfg) a e = e.mods.filter (·.domain == 4) := by
+  unfold projMods derivedDyn; cases e.isBuff <;> simp
+
 /-- Per carrier item: the settled specs that act on `(x, attr)` are the specification's, with the local
 ones of all running effects listed first. -/
 theorem specs_item_perm (hc : UniqueIds cfg) {a : Item} (ha : a ∈ cfg.items) :
@@ -346,12 +354,16 @@ theorem specs_item_perm (hc : UniqueIds cfg) {a : Item} (ha : a ∈ cfg.items) :
         (e.mods.filter fun m => m.domain == 4 && m.tgtAttr == attr && affectsProjected cfg a m tg x tx).map
           fun m => (⟨a, e, m, some tg⟩ : Spec)) ?_, hrun]
     intro e he
-    rw [targetsOf_derived_running hc ha he]
+    rw [targetsOf_derived_running hc ha he, projMods_derived]
     split
     · rw [List.filter_flatMap]
       exact List.flatMap_congr fun t _ => filter_proj a e t
     · rename_i hcat
-      simp [projectionTargets, hcat]
+      have hcat2 : (e.category == 2) = false := by
+        cases h2 : e.category == 2
+        · rfl
+        · rw [h2] at hcat; exact absurd rfl hcat
+      simp [projectionTargets, hcat2]
   rw [List.filter_append, hl, hp]
   exact List.flatMap_append_perm _ _ _
 
